@@ -50,13 +50,23 @@ def walk_order(rels):
     return sorted(rels, key=k2)
 
 
+def nets_field(lst):
+    """the pipe case's spelling of a network list: int/len items joined by ';' ('-' = not given)"""
+    import ipaddress
+    if lst is None:
+        return "-"
+    return ";".join("%d/%d" % (int(ipaddress.ip_network(x).network_address), ipaddress.ip_network(x).prefixlen) for x in lst)
+
+
 def run(ctx):
     rng, q = ctx.rng, ctx.quick()
     runs, meta = [], []
     feats = [dict(pwd=True), dict(ip=True), dict(pwd=True, ip=True, words=["seattle"], asnums=["65001"]), dict(words=["kayak", "seattle"]), dict(ip=True, asnums=["64512"])]
     for t in range(4 if q else 40):
         files, dots = gen_tree(rng, rng.randrange(2, 6))
-        opts = dict(rng.choice(feats), salt=rng.choice(["s", "T0", "netconan"]), b4=8, b6=8, hostbits=8, precreate_out=rng.random() < 0.3)
+        hb = rng.choice([8, 8, 0, 4])
+        opts = dict(rng.choice(feats), salt=rng.choice(["s", "T0", "netconan"]), b4=hb, b6=hb, hostbits=hb, precreate_out=rng.random() < 0.3,
+                    prefixes=rng.choice([None, None, ["20.0.0.0/8"], ["12.0.0.0/6", "192.168.0.0/16"]]), networks=rng.choice([None, None, ["11.22.0.0/16"]]))
         tree = [[r, b64(c), {}] for r, c in list(files.items()) + list(dots.items())] + [["empty dir", None, {}]]
         for mode in ("api", "main", "file", "io"):
             runs.append(["files", mode, json.dumps(opts), json.dumps(tree)])
@@ -83,6 +93,11 @@ def run(ctx):
         for mode in ("api", "main"):
             runs.append(["files", mode, json.dumps(o1), json.dumps(tree)])
             meta.append(("single", t, mode, files, dots, o1, one))
+        # single-file input whose named output path is an existing directory: reported, nothing written, by every entry point
+        o2 = dict(o1, single_out_is_dir=True)
+        for mode in ("api", "main", "file"):
+            runs.append(["files", mode, json.dumps(o2), json.dumps(tree)])
+            meta.append(("single-outdir", t, mode, files, dots, o2, one))
     sec = {"a.cfg": "username alice password AlicePw1\nsnmp-server community AliceComm RO\n", "site/c.cfg": "username carol password CarolPw3\nenable password CarolEn4\n"}
     late = [["b.cfg", b64(b"username bob password BobPw2\nsnmp-server community BobComm RW\n" + b"! filler line\n" * 1500 + b"\xff\xfe broken\n"), {}]]
     stree = [[r, b64(c), {}] for r, c in sec.items()]
@@ -123,7 +138,8 @@ def run(ctx):
                 order = walk_order(list(files))
                 lines = [l + "\n" for rel in order for l in files[rel].split("\n")[:-1]]
                 if t < 10_000:
-                  mcases.append(textgen.pipe(lines, flags=("p" if opts.get("pwd") else "") + ("a" if opts.get("ip") else ""), salt=opts["salt"], words=opts.get("words"), asnums=opts.get("asnums"), b4=8, b6=8))
+                  mcases.append(textgen.pipe(lines, flags=("p" if opts.get("pwd") else "") + ("a" if opts.get("ip") else ""), salt=opts["salt"], words=opts.get("words"), asnums=opts.get("asnums"), b4=opts["b4"], b6=opts["b6"],
+                                             pfx=nets_field(opts.get("prefixes")), nets=nets_field(opts.get("networks"))))
                   mwhere.append((t, order, files))
             elif t < 10_000 and t in base and r["out"] != base[t]:
                 k = next((x for x in sorted(base[t]) if r["out"].get(x) != base[t][x]), None)
@@ -139,6 +155,12 @@ def run(ctx):
                 ctx.fail("the failed file %s is not reported in an ERROR record" % name, {"opts": opts}, r["errors"], label="impl")
             if mode == "outdir" and name in r["out"]:
                 pass
+        elif kind == "single-outdir":
+            stray = [p for p in r["listing"] if not p.startswith("in/")]
+            if stray or r["out"]:
+                ctx.fail("single input file whose output path is an existing directory: something was written (entry point %s)" % mode, {"opts": opts}, stray or sorted(r["out"]), label="impl")
+            if mode != "file" and (r["raised"] or not r["errors"]):
+                ctx.fail("single input file whose output path is an existing directory is not reported as a failed file (entry point %s)" % mode, {"opts": opts}, {"raised": r["raised"], "errors": r["errors"]}, label="impl")
         else:
             one = extra
             if r["raised"] or list(r["out"]) != [one]:
